@@ -419,9 +419,7 @@ def sequence_worlds(seq, res):
     edits = []
     for k, (st, r) in enumerate(zip(seq["steps"], res["steps"])):
         if st["kind"] == "edit":
-            if "edit_raised" in r:
-                raise RuntimeError("an edit through the library's API raised: %r %r" % (st, r))
-            edits.append((st["edit"], bool(r.get("done"))))
+            edits.append((st["edit"], "raised:" + r["edit_raised"]["raised"] if "edit_raised" in r else bool(r.get("done"))))
             continue
         per.setdefault(r["epoch"], []).append((k, st, r))
     worlds, results = [], []
@@ -683,7 +681,7 @@ def run(args):
              "collections_same_untyped_different_typed": 0, "collections_same_typed_reported_twice": 0, "pre_literals": 0, "pre_lifted_literals": 0, "pre_numeric": 0, "eq_pairs": 0,
              "effect_groups": 0, "effect_literals": 0, "effect_numeric": 0, "typed_call_raised": 0, "ground_raised": 0, "ground_raised_arity_mismatch": 0,
              "features": {}, "sequence_worlds": 0, "sequence_ground_steps": 0, "sequence_ground_steps_same_operator_object": 0,
-             "sequence_edits_done": {}, "sequence_edits_without_effect": {}, "sequence_regrounded_calls": 0,
+             "sequence_edits_done": {}, "sequence_edits_without_effect": {}, "sequence_edits_that_raised": {}, "sequence_regrounded_calls": 0,
              "sequence_regrounded_calls_whose_report_changed": 0}
     lits, units, cases = [], [], []
     streams = []
@@ -700,7 +698,8 @@ def run(args):
                 if si == 0:
                     stats["sequence_worlds"] += 1
                     for kind, done in edits:
-                        row = stats["sequence_edits_done" if done else "sequence_edits_without_effect"]
+                        row = stats["sequence_edits_that_raised" if isinstance(done, str) else
+                                    "sequence_edits_done" if done else "sequence_edits_without_effect"]
                         row[kind] = row.get(kind, 0) + 1
                     last = {}
                     for wd1, r1 in zip(ws1, rs1):
@@ -770,7 +769,14 @@ def run(args):
                    "surplus argument (every grounding of that action must raise; counted).  Collections are compared as MULTISETS: with the model exactly "
                    "(Model.GroundSets: the library's per-connective / per-effect-group sets applied to the report), with the spec between its lower bound "
                    "(Spec.SubstSet: members of one connective / effect group with the same TYPED form count once) and one item per schema occurrence; numeric "
-                   "conditions and effects exactly; (in)equality pairs as sets; the iteration order of the sets is not compared.  A verdict is non-trivial "
+                   "conditions and effects exactly; (in)equality pairs as sets; the iteration order of the sets is not compared.  "
+                   "Wave 3: PROCESS-LEVEL SEQUENCES (36 quick / 240 thorough worlds of the ordinary and the alias stream): ONE parsed Domain whose Action objects are "
+                   "reused and EDITED IN PLACE through the library's API between groundings -- add / remove a precondition literal, a nested or/and group, a numeric "
+                   "condition, an add / delete effect, a numeric effect, a literal of a 'when' branch (antecedent / result), change_signature to fresh names and back; after "
+                   "each edit the call grounded before is grounded again (a fresh Operator, and in half of the rounds the SAME Operator object grounded again), another seen call, "
+                   "sometimes a call never seen, sometimes a call of another action; every report is judged against the schema AS IT IS AT THAT MOMENT: the op re-dumps the "
+                   "domain's actions with DomainExporter.write_action after every edit and the model and the spec ground that text (counted: sequence_*; "
+                   "sequence_regrounded_calls_whose_report_changed = how often the edit mattered).  A verdict is non-trivial "
                    "when the call has arguments and the compared collection is non-empty; distinct by input hash.")
     cov["samples"] = [{"domain": (c["input"]["world"]["domain_text"] or str(c["input"]["world"]["fixture"]))[:400],
                        "probe": c["input"]["world"]["probes"][0]} for c in cases[:1] + cases[-2:]]
